@@ -43,6 +43,18 @@ CHECKS["C10"] = ("E1+E2", "deterministic simulation: seeded request/tick histori
   "exploration",
   "E1: decision and requested wait equal the reference queue exactly (1 ns band only where floating-point evaluation of the pacing interval differs from the exact value). E2: admitted requests ordered by pass time are each >= D(own batch) after their predecessor and no wait exceeds the limit. Sampling.",
   "Trusted: reference queue (DESIGN.md A.3), clock seam capture of arrival (the CurrentTimeNano value the check received) and wait (the Sleep it requested), scheduler.", "DESIGN.md §3 C10")
+CHECKS["C05"] = ("E1", "deterministic simulation: seeded multi-value arrival histories in virtual time with Sleep captured at the clock seam; envelope oracles per (rule, value) plus a metamorphic independence oracle (every decision and wait equals that of a shadow resource, same rule, that only ever receives this value at the same virtual times)",
+  "exploration",
+  "Reject mode: envelope since first seen, 2(T+burst) per duration, idle values always granted up to their threshold; throttling: spacing floor(b*D/T) ms and wait strictly below the queueing limit; specific items, index / negative index / attachment-key selection, requests without the argument never limited, capacity below the number of values (then only termination / no panic). Sampling.",
+  "Trusted: envelopes as stated in the property, argument selection rule (DESIGN.md A.4). Independence asserted only while the configured capacity was never exceeded.", "DESIGN.md §3 C05")
+CHECKS["C07"] = ("E1", "deterministic simulation with injected system readings: seeded inbound/outbound traffic histories, completions with virtual durations, load / CPU readings injected through the existing setters; the reference predicate is evaluated on aggregates of the tallied inbound events",
+  "exploration",
+  "Outbound never system-blocked; inbound blocked iff some loaded rule is violated by the reference aggregates (aligned-window pass QPS, truncated average RT with an ambiguity band, live inbound count, injected load/CPU, BBR capacity = peak per-bucket completion rate x minimum RT). Sampling of rule sets, readings and histories.",
+  "Trusted: window model, predicate as stated; BBR with <=1 in flight and averages within the truncation band are ambiguous (either decision accepted, counted).", "DESIGN.md §3 C07")
+CHECKS["C11"] = ("E1", "deterministic simulation: seeded demand shapes in virtual seconds (idle / saturating / steady single-token phases) for warm-up rules and injected memory readings for memory-adaptive rules; envelope oracles on admitted counts per aligned window and on the effective threshold",
+  "exploration",
+  "Warm-up: rate never above the threshold in any aligned window, cold start bounded by ceil(T/coldFactor)+1 after a long idle, full threshold reached after a long saturation, steady single-token demand admitted, effective threshold finite, >=0, <=T. Memory-adaptive: end points exact, monotone in between, fresh-window capacity == floor(effective). Sampling.",
+  "Trusted: envelope constants chosen from the property text (generous slack); overlay-only accessor for the effective threshold. One open finding (no cool-down when threshold < cold factor) tolerated.", "DESIGN.md §3 C11")
 NOT_YET = {}
 props = [json.loads(l) for l in open(os.path.join(HERE, 'properties.jsonl'))]
 checks, na = [], []
